@@ -4,9 +4,10 @@ import re
 
 from .. import regexast as RX
 from .. import sgr
-from ..absint import Interp, exception_matches
-from ..consteval import Folder, SymStr, TOP, Unknown
-from ..models import FromStrFold, Reader, T, parse_args_eval
+from ..absint import exception_matches
+from ..consteval import EscText, PlainText, SymStr, TOP, Unknown
+from ..fold import new_interp
+from ..models import FromStr, Reader, T, T2, cells, parse_args_eval
 from ..report import AnalysisError
 from ..srcmodel import unparse
 from . import tokenizer
@@ -53,42 +54,39 @@ def _class_chars(rx, sub):
     return out
 
 
-def rule_x1(src, rep, fold, tm, counts):
-    reader = Reader(src, fold)
+def rule_x1(src, rep, it, tm, counts):
+    fold = it.folder
+    reader = Reader(src, it)
     f = reader.f
     csi, two = tm.csi(), tm.two_byte()
     csi_cmds = sorted(_class_chars(csi["rx"], csi["rx"].group("command")))
     two_cmds = sorted(_class_chars(two["rx"], two["rx"].group("command")))
     counts["csi_final_bytes"] = len(csi_cmds)
     counts["two_byte_final_bytes"] = len(two_cmds)
-    it = Interp(fold, max_states=64)
-    env0 = dict(fold.module("escseqparse"))
-    p0 = f.params()[0]
     emitted = []
     n = 0
+    bad = 0
 
     def run(token, label):
-        nonlocal n
+        nonlocal n, bad
         n += 1
-        env = dict(env0)
-        env[p0] = token
-        outs = it.run_function(f.node, env)
-        for o in outs:
-            if o.opaque or o.assumptions:
-                raise AnalysisError("token_type outside the decision-list subset for token %s: %r" % (label, o))
-            ok = o.term == "return" or (o.term == "raise" and o.value == "ValueError")
-            if not ok or o.term == "return" and not (o.value is None or isinstance(o.value, list)):
+        r = reader.token_dict(token)
+        if r[0] == "opaque":
+            raise AnalysisError("token_type outside the evaluated subset for token %s: %s" % (label, r[1]))
+        ok = (r[0] == "ok" and (r[1] is None or isinstance(r[1], list))) or r == ("raise", "ValueError")
+        if not ok:
+            bad += 1
+            if bad <= 4:
                 rep.ob("X1-token_type-raises-only-ValueError", f.where(), f.scope, "token %s" % label, False,
                        "token_type %s for a token the tokenizer can produce (%s): parse() converts only ValueError, so "
-                       "fmtstr() raises on input containing it" % ("raises %s" % o.value if o.term == "raise" else "returns %r" % (o.value,), label),
-                       witness={"token": {k: v for k, v in token.items()}, "outcome": repr(o)})
-                return
-            if o.term == "return" and isinstance(o.value, list):
-                emitted.extend(u for u in o.value if isinstance(u, dict))
-        rep.case(True, {"token": label, "outcome": repr(outs[0])[:100]} if n % 97 == 1 else None)
+                       "fmtstr() raises on input containing it" % ("raises %s" % r[1] if r[0] == "raise" else "returns %r" % (r[1],), label),
+                       witness={"token": {k: v for k, v in token.items()}, "outcome": repr(r)})
+            return
+        if r[0] == "ok" and isinstance(r[1], list):
+            emitted.extend(u for u in r[1] if isinstance(u, dict))
+        rep.case(True, {"token": label, "outcome": repr(r)[:100]} if n % 97 == 1 else None)
 
-    # CSI-pattern tokens: groupdict of the CSI pattern, numbers as post-processed by peel_off_esc_code
-    number_shapes = [[], [0], [1], [31], [38, 5, 196], [90], [0, 1, 31, 44], "", ";", "1;", ";1", "1;;2"]
+    number_shapes = [[], [0], [1], [31], [38], [48], [38, 5, 196], [1, 38], [48, 2], [90], [0, 1, 31, 44], "", ";", "1;", ";1", "1;;2"]
     for ch in csi_cmds:
         for nums in (number_shapes if ch == "m" else ([], [2], "", "1;")):
             tok = {g: "" for g in csi["rx"].groupindex if g not in ("front", "rest")}
@@ -98,53 +96,53 @@ def rule_x1(src, rep, fold, tm, counts):
         tok = {g: "" for g in csi["rx"].groupindex if g not in ("front", "rest")}
         tok.update({"csi": "\x1b[", "command": "m", "numbers": [c], "seq": "\x1b[%dm" % c})
         run(tok, "SGR %d" % c)
-    # two-byte tokens: ONLY the groups of the two-byte pattern exist
+        tok2 = dict(tok, numbers=[1, c])
+        run(tok2, "SGR 1;%d" % c)
     for ch in two_cmds:
         tok = {g: "" for g in two["rx"].groupindex if g not in ("front", "rest")}
         tok.update({"csi": "\x1b", "command": ch, "seq": "\x1b" + ch})
         run(tok, "two-byte final=%r (groups %s)" % (ch, sorted(tok)))
-    rep.ob("X1-token_type-raises-only-ValueError", f.where(), f.scope, "%d token shapes of both tokenizer patterns" % n, True)
+    if not bad:
+        rep.ob("X1-token_type-raises-only-ValueError", f.where(), f.scope, "%d token shapes of both tokenizer patterns" % n, True)
     counts["token_shapes"] = n
-    # every emitted update is accepted by the fold (which runs outside the try of from_str)
-    fsf = FromStrFold(src, fold)
+    # every emitted update is accepted by from_str (whose token loop runs outside its try block)
+    fs = FromStr(src, it)
     uniq = []
     for u in emitted:
         if u not in uniq:
             uniq.append(u)
     counts["reader_updates"] = len(uniq)
-    g = fsf.f
-    bad = None
-    states = [{}]
-    for u in uniq:
-        r = fsf.step({}, u)
-        if r[0] == "opaque":
-            raise AnalysisError("from_str loop: %s" % r[1])
-        if r[0] != "ok":
-            bad = (u, r)
-            break
-        states.append(r[1])
-    # pairs of updates then text
-    if bad is None:
-        for a in uniq:
-            for b in uniq:
-                st = {}
-                for u in (a, b):
-                    r = fsf.step(st, u)
-                    st = r[1] if r[0] == "ok" else st
-                r = fsf.step(st, T)
-                rep.case(True)
-                if r[0] == "opaque":
-                    raise AnalysisError("from_str loop: %s" % r[1])
-                if r[0] != "ok":
-                    bad = ((a, b, "text"), r)
-                    break
-            if bad:
+    g = fs.f
+    badf = None
+    for a in uniq:
+        for b in uniq:
+            r = fs.run([dict(a), T, dict(b), T2])
+            rep.case(True)
+            if r[0] == "opaque":
+                raise AnalysisError("from_str outside the evaluated subset: %s" % r[1])
+            if r[0] != "ok" or [u for u, _ in cells(r[1])] != [str(T), str(T2)]:
+                badf = ((a, "text", b, "text"), r)
                 break
-    rep.ob("X1-fold-accepts-every-reader-update", g.where(fsf.loop), g.scope,
-           "%d distinct updates x pairs x text through the from_str fold and parse_args" % len(uniq), bad is None,
-           "the token loop of from_str runs outside its try block and %s for reader output %s: fmtstr() raises on a string "
-           "with supported escape sequences" % (("raises %s" % bad[1][1]) if bad else "", bad[0] if bad else ""),
-           witness={"tokens": str(bad[0]), "result": str(bad[1])} if bad else None)
+        if badf:
+            break
+    rep.ob("X1-from_str-accepts-every-reader-update-and-keeps-text", g.where(), g.scope,
+           "%d distinct reader updates, all ordered pairs, with text after each" % len(uniq), badf is None,
+           "for the token list %s from_str gives %s: it must not raise (its token loop runs outside the try block) and must keep "
+           "both text pieces" % (badf[0] if badf else "", badf[1] if badf else ""),
+           witness={"tokens": str(badf[0]), "result": str(badf[1])} if badf else None)
+    # text survives whatever non-SGR tokens lie between (parse emits nothing for them: adjacent text pieces)
+    for label, toks, want in (("adjacent text pieces", [T, T2], [T, T2]), ("text, empty update, text", [T, {}, T2], [T, T2]),
+                              ("only text", [T], [T]), ("no tokens at all", [], [])):
+        r = fs.run(list(toks))
+        if r[0] == "opaque":
+            raise AnalysisError("from_str outside the evaluated subset: %s" % r[1])
+        ok = r[0] == "ok" and [u for u, _ in cells(r[1])] == [str(x) for x in want]
+        rep.ob("X1-every-text-piece-is-kept", g.where(), g.scope, label, ok,
+               "for %s from_str gives %s: every character that is not part of an escape sequence must be kept, in order" % (label, r,))
+    # fallback: parse raising ValueError -> input with sequences removed, unformatted; anything else must not be swallowed silently
+    r = fs.run([], parse_raises="ValueError")
+    rep.ob("X3-fallback-strips-input", g.where(), g.scope, "parse() raises ValueError", r == ("ok", [(fs.fallback_marker, {})]),
+           "when parse() raises ValueError from_str must return FmtStr(Chunk(remove_ansi(s))); it gives %s" % (r,))
     # structure: parse() wraps token_type in try/except ValueError -> ValueError; from_str catches ValueError around parse
     p = src.func("escseqparse", "parse")
     tcalls = [n2 for n2 in p.own_nodes() if isinstance(n2, ast.Call) and unparse(n2.func) == "token_type"]
@@ -208,29 +206,28 @@ def rule_x1(src, rep, fold, tm, counts):
 
 def rule_x3(src, rep, fold, counts):
     f = src.func("escseqparse", "remove_ansi")
-    calls = tokenizer._regex_calls(src, f, names=("sub", "subn"))
-    if len(calls) != 1:
-        raise AnalysisError("remove_ansi: expected exactly one re.sub call, found %d" % len(calls))
-    kind, c = calls[0]
-    pat = tokenizer.fold_local(fold, f, c.args[0]) if c.args else TOP
+    uses = tokenizer.regex_uses(src, fold, f, methods=("sub", "subn"))
+    if len(uses) != 1:
+        raise AnalysisError("remove_ansi: expected exactly one regex substitution, found %d" % len(uses))
+    u = uses[0]
+    c = u["node"]
+    pat = u["pattern"]
     if not isinstance(pat, str):
         raise AnalysisError("remove_ansi: pattern is not constant")
-    repl_ok = len(c.args) >= 2 and isinstance(c.args[1], ast.Constant) and c.args[1].value == ""
+    args = u["args"]           # (repl, string[, count[, flags]]) in both forms
+    repl_ok = len(args) >= 1 and isinstance(args[0], ast.Constant) and args[0].value == ""
     rep.ob("X3-replacement-is-empty", f.where(c), f.scope, unparse(c)[:100], repl_ok,
            "remove_ansi must replace with the empty string: anything else adds characters to the text")
-    extra_pos = len(c.args) > 3
-    kw = {k.arg for k in c.keywords}
-    count_kw = [k for k in c.keywords if k.arg == "count" and not (isinstance(k.value, ast.Constant) and k.value.value == 0)]
-    rep.ob("X3-sub-removes-all-occurrences", f.where(c), f.scope, unparse(c)[:100], not extra_pos and not count_kw and kind == "sub",
-           "a 4th positional argument of re.sub is `count`, not `flags` (e.g. re.DOTALL == 16 limits the removal to 16 "
+    count_kw = [k for k in u["keywords"] if k.arg == "count" and not (isinstance(k.value, ast.Constant) and k.value.value == 0)]
+    extra_pos = len(args) > 2
+    rep.ob("X3-sub-removes-all-occurrences", f.where(c), f.scope, unparse(c)[:100], not extra_pos and not count_kw and u["method"] == "sub",
+           "a further positional argument of sub() is `count`, not `flags` (e.g. re.DOTALL == 16 limits the removal to 16 "
            "sequences): later escape sequences stay in the text")
-    subj_ok = len(c.args) >= 3 and unparse(c.args[2]) == f.params()[0]
+    subj_ok = len(args) >= 2 and unparse(args[1]) == f.params()[0]
     rets = [n for n in f.own_nodes() if isinstance(n, ast.Return)]
     rep.ob("X3-sub-on-input", f.where(c), f.scope, unparse(c)[:100], subj_ok and len(rets) == 1 and rets[0].value is c,
-           "remove_ansi must return re.sub(pattern, '', <its argument>)")
-    flag_nodes = [k.value for k in c.keywords if k.arg == "flags"]
-    flags = RX.flags_from_ast(src, f.module, flag_nodes)
-    rx = RX.Regex(pat, flags)
+           "remove_ansi must return the substitution applied to its argument")
+    rx = RX.Regex(pat, u["flags"])
     ref = RX.Regex(REF_ECMA_CSI, re.DOTALL)
     w = RX.language_subset(rx, rx.tree, ref, ref.tree)
     rep.ob("X3-fallback-removes-only-CSI", f.where(c), f.scope, "L(%s) within ECMA-48 CSI sequences" % pat, w is None,
@@ -242,56 +239,27 @@ def rule_x3(src, rep, fold, counts):
     counts["remove_ansi"] = 1
 
 
-def rule_x4(src, rep, fold, counts):
+def rule_x4(src, rep, it, counts):
+    fold = it.folder
     f = src.func("formatstring", "FmtStr.from_str")
-    it = Interp(fold, classes=("Chunk", "FmtStr"), max_states=64)
-    env = dict(fold.module("formatstring"))
-    s = SymStr("S")
-    env[f.params()[0]] = s
-
-    def hook(call, e):
-        if isinstance(call.func, ast.Name) and call.func.id == "parse":
-            return []
-        if isinstance(call.func, ast.Name) and call.func.id == "remove_ansi":
-            return SymStr("R")
-        raise Unknown("no hook")
-    it.extra_hook = hook
-    outs = it.run_function(f.node, env)
-    guards = set()
-    verb = []
-    for o in outs:
-        for t, v in o.assumptions:
-            guards.add(t)
-        if any(not v for t, v in o.assumptions):
-            verb.append(o)
-    # the only question asked about the text is whether it contains ESC[
-    norm = {g.replace('"', "'") for g in guards}
-    ok = norm == {"'\\x1b[' in %s" % f.params()[0]}
-    rep.ob("X4-only-question-is-ESC[", f.where(), f.scope, "tests on the input: %s" % sorted(guards), ok,
-           "from_str must decide between parsing and the verbatim path only by `'\\x1b[' in s`")
-    ok = len(verb) == 1 and verb[0].term == "return" and verb[0].value == ("<FmtStr>", ("<Chunk>", s)) and \
-        isinstance(verb[0].value[1][1], SymStr)
-    rep.ob("X4-verbatim-without-escape", f.where(), f.scope, "no 'ESC[' in s -> FmtStr(Chunk(s))", ok,
-           "text without an escape sequence must come back verbatim and unformatted as FmtStr(Chunk(s)); got %s" % verb)
+    from ..models import runs_of
+    plain = PlainText("P")
+    r = it.call1("formatstring", "FmtStr.from_str", plain)
+    if r[0] == "opaque":
+        raise AnalysisError("from_str outside the evaluated subset on plain text: %s" % r[1])
+    ok = r[0] == "ok" and runs_of(r[1]) == [(plain, {})] and runs_of(r[1])[0][0] is plain
+    rep.ob("X4-verbatim-without-escape", f.where(), f.scope, "symbolic text without ESC/0x9b -> FmtStr(Chunk(s))", ok,
+           "text without an escape sequence must come back verbatim and unformatted as one run holding the input itself; got %s"
+           % ((runs_of(r[1]) if r[0] == "ok" else r),))
+    r = it.call1("formatstring", "fmtstr", plain)
+    ok = r[0] == "ok" and runs_of(r[1]) == [(plain, {})]
+    rep.ob("X4-fmtstr-of-plain-text", f.where(), "formatstring:fmtstr", "fmtstr(<plain text>)", ok,
+           "fmtstr(s) of ordinary text must be that text, unformatted; got %s" % ((runs_of(r[1]) if r[0] == "ok" else r),))
     # fmtstr(s): parse_args((), {}) == {} and the result is from_str(s).copy_with_new_atts(**{})
-    it2 = Interp(fold, max_states=64)
-    r = parse_args_eval(it2, src, fold, (), {})
+    r = parse_args_eval(it, (), {})
     rep.ob("X4-no-attributes-for-bare-call", src.func("formatstring", "parse_args").where(), "formatstring:parse_args",
            "parse_args((), {}) -> %s" % (r,), r == ("ok", {}), "fmtstr(s) without arguments must not add attributes or raise")
-    g = src.func("formatstring", "fmtstr")
-    calls = [n for n in g.own_nodes() if isinstance(n, ast.Call) and unparse(n.func).endswith("from_str")]
-    ok = len(calls) == 1 and len(calls[0].args) == 1 and unparse(calls[0].args[0]) == g.params()[0]
-    if ok:
-        from ..cfg import lexical_guard
-        gd = lexical_guard(g.module, calls[0], g.node)
-        ok = gd == [("isinstance(%s, str)" % g.params()[0], True)]
-    rep.ob("X4-fmtstr-delegates-to-from_str", g.where(), g.scope, "isinstance(string, str) -> FmtStr.from_str(string)", ok,
-           "fmtstr() must hand every str to FmtStr.from_str")
-    rets = [n for n in g.own_nodes() if isinstance(n, ast.Return)]
-    ok = len(rets) == 1 and isinstance(rets[0].value, ast.Call) and unparse(rets[0].value.func).endswith(".copy_with_new_atts")
-    rep.ob("X4-fmtstr-returns-restyled-copy", g.where(), g.scope, unparse(rets[0])[:80] if rets else "<none>", ok,
-           "fmtstr() must return string.copy_with_new_atts(**atts)")
-    counts["from_str_outcomes"] = len(outs)
+    counts["from_str_outcomes"] = 2
 
 
 def check(src, rep):
@@ -301,14 +269,15 @@ def check(src, rep):
                        "implicit exceptions other than the ones modelled (KeyError on dict lookup, int()) do not occur in "
                        "str/list primitives"]
     rep.trusted_base = ["CPython ast and re._parser", "sa/consteval.py", "sa/absint.py", "sa/regexast.py"]
-    fold = Folder(src, fuel=10 ** 9)
+    it = new_interp(src)
+    fold = it.folder
     counts = {}
     tm = rep.guard(tokenizer.rules_tokenizer, src, rep, fold, "X2", counts)
     rep.guard(tokenizer.rules_parse_loop, src, rep, "X2")
     if tm is not None:
-        rep.guard(rule_x1, src, rep, fold, tm, counts)
+        rep.guard(rule_x1, src, rep, it, tm, counts)
     rep.guard(rule_x3, src, rep, fold, counts)
-    rep.guard(rule_x4, src, rep, fold, counts)
+    rep.guard(rule_x4, src, rep, it, counts)
     rep.extracted["counts"] = counts
     rep.floor("tokenizer patterns", counts.get("tokenizer_patterns", 0), 2)
     rep.floor("token shapes pushed through token_type", counts.get("token_shapes", 0), 300)
